@@ -1497,3 +1497,7 @@ mod test {
         );
     }
 }
+
+#[cfg(any(kani, aszepieniec_falcon_rust_verif))]
+#[path = "/verif/hooks/falcon.rs"]
+pub(crate) mod verif_hook;
